@@ -64,6 +64,34 @@ MODULE_ORDER = ['Node', 'Attacker', 'NodeDelegates', 'Query', 'Graph', 'Apriori'
 IMPORTS = {'Node': [], 'Attacker': ['Node'], 'NodeDelegates': ['Attacker'], 'Query': ['Node'],
            'Graph': ['Attacker'], 'Apriori': ['Graph'], 'Eval': [], 'Link': ['Graph', 'Eval']}
 
+# what harness/tie.py needs to know about this translation domain (see its docstring)
+TIE = {
+    'gen_dir': 'MalVerif/Py/Gen',
+    'gen_modules': MODULE_ORDER,
+    # modules that depend on the generated code, in dependency order
+    'chain': ['MalVerif.Py.TieNode', 'MalVerif.Py.TieGraph', 'MalVerif.Py.TieApriori', 'MalVerif.Py.TieEval',
+              'MalVerif.Py.TieLink', 'MalVerif.PropsGen.C01', 'MalVerif.PropsGen.C08', 'MalVerif.PropsGen.C09',
+              'MalVerif.PropsGen.C11', 'MalVerif.PropsGen.C12', 'MalVerif.PropsGen.C13'],
+    # which modules carry the claim of a property (its PropsGen file and what that imports)
+    'needs': {
+        'C01': ['MalVerif.Py.TieEval', 'MalVerif.Py.TieLink', 'MalVerif.PropsGen.C01'],
+        'C08': ['MalVerif.Py.TieApriori', 'MalVerif.PropsGen.C08'],
+        'C09': ['MalVerif.Py.TieNode', 'MalVerif.Py.TieGraph', 'MalVerif.PropsGen.C09'],
+        'C11': ['MalVerif.Py.TieNode', 'MalVerif.PropsGen.C11'],
+        'C12': ['MalVerif.Py.TieNode', 'MalVerif.PropsGen.C12'],
+        'C13': ['MalVerif.Py.TieNode', 'MalVerif.Py.TieGraph', 'MalVerif.PropsGen.C13'],
+    },
+    # python functions whose translation a property's theorems are about (for the evidence file)
+    'sources': {
+        'C01': 'attackgraph.py: _process_step_expression (the methods it calls on lang_graph / model are parameters: EvalEnv) and the linking loop (second loop) of _generate_graph',
+        'C08': 'analyzers/apriori.py: propagate_viability_from_node, propagate_necessity_from_node, _has_ttc_distribution, evaluate_viability, evaluate_necessity, evaluate_viability_and_necessity, calculate_viability_and_necessity',
+        'C09': 'attackgraph.py: get_node_by_id, get_node_by_full_name, get_attacker_by_id, add_node, remove_node, add_attacker, remove_attacker; attacker.py: compromise, undo_compromise; node.py: full_name',
+        'C11': 'attacker.py: compromise, undo_compromise; node.py: is_compromised, is_compromised_by, compromise, undo_compromise',
+        'C12': 'query.py: is_node_traversable_by_attacker, get_attack_surface, update_attack_surface_add_nodes, get_defense_surface, get_enabled_defenses; node.py: is_available_defense, is_enabled_defense, is_compromised_by',
+        'C13': 'analyzers/apriori.py: prune_unviable_and_unnecessary_nodes; attackgraph.py: remove_node; attacker.py: undo_compromise',
+    },
+}
+
 # `lang_graph` / `model` parameters of the step-expression evaluator: their methods are *parameters* of the
 # translation (fields of `EvalEnv` in the prelude), not translated code.  name -> (argument types, result, raises)
 ENV_METHODS = {
@@ -172,10 +200,20 @@ class Fn:
         self.recursive = False
         self.mut_attrs: set = set()     # (objtype, attr) of list attributes that may be mutated (transitively)
 
-def collect(repo):
+def closure(modules):
+    """the given generated modules and everything they import, in MODULE_ORDER"""
+    want = set()
+    todo = list(modules)
+    while todo:
+        m = todo.pop()
+        if m in want: continue
+        want.add(m); todo.extend(IMPORTS[m])
+    return [m for m in MODULE_ORDER if m in want]
+
+def collect(repo, order=None):
     fns: dict[str, Fn] = {}
     by_method: dict[tuple, Fn] = {}
-    for mod in MODULE_ORDER:
+    for mod in (order or MODULE_ORDER):
         path, sel = MODULES[mod]
         tree = ast.parse(open(os.path.join(repo, path), encoding='utf-8').read())
         for entry in sel:
@@ -1057,11 +1095,14 @@ open MalVerif.Py
 
 '''
 
-def generate(repo) -> dict[str, str]:
-    fns, by_method = collect(repo)
+def generate(repo, modules=None) -> dict[str, str]:
+    """translate all modules, or (`modules` given) only those and what they import: a function elsewhere that has
+    left the supported subset then does not stand in the way"""
+    order = closure(modules) if modules else MODULE_ORDER
+    fns, by_method = collect(repo, order)
     analyse(fns)
     out = {}
-    for mod in MODULE_ORDER:
+    for mod in order:
         path, sel = MODULES[mod]
         imports = 'import MalVerif.Py.Prelude\n' + ''.join(f'import MalVerif.Py.Gen.{m}\n' for m in IMPORTS[mod])
         txt = HEADER.format(path=path, imports=imports.rstrip())
